@@ -24,10 +24,11 @@ ASSUMPTIONS = ['the scripted peers answer the handshake XML-RPCs with payloads d
                'peer (clock seen by that step and not-before date of the notifications it pushes)',
                'an unknown nick with the right identifier and address is accepted by design (Context.is_valid)']
 FLOORS = {'quick': {'isolations': 150, 'non_interference_checks_isolated': 1500, 'admissions': 150,
-                    'isolations_at_handshake': 60, 'rpcs_to_isolated_checked': 100, 'messages_injected': 10000},
+                    'isolations_at_handshake': 60, 'rpcs_to_isolated_checked': 100, 'messages_injected': 10000,
+                    'threads_histories_checked': 30},
           'thorough': {'isolations': 3000, 'non_interference_checks_isolated': 30000, 'admissions': 3000,
                        'isolations_at_handshake': 1200, 'rpcs_to_isolated_checked': 2000,
-                       'messages_injected': 200000}}
+                       'messages_injected': 200000, 'threads_histories_checked': 500}}
 COUNT = {'quick': 480, 'thorough': 9000}
 BUDGET_S = {'quick': 55, 'thorough': 540}
 
@@ -42,14 +43,29 @@ HISTORY_KNOBS = {'n_min': 2, 'n_max': 4, 'late_p': 0.2, 'trigger_p': 0.2, 'both_
                  'apps': {'n_apps': (1, 2), 'n_progs': (1, 3), 'startsecs': (0, 3)}}
 
 
+THREAD_COUNT = {'quick': 48, 'thorough': 800}
+
+
 def plan(tier, seed):
     # two families: the L2 fuzz, and real histories of isolation in clusters of real instances (L3)
     cases = [{'seed': seed * 1000003 + i, 'family': 'fuzz'} for i in range(COUNT[tier])]
     cases += [{'seed': seed * 1000003 + 600000 + i, 'family': 'history'} for i in range(HISTORY_COUNT[tier])]
+    # and the real proxy threads (real run() / stop() / join()) with a backlog behind a hanging XML-RPC
+    cases += [{'seed': seed * 1000003 + 500000 + i, 'family': 'threads'} for i in range(THREAD_COUNT[tier])]
     return cases
 
 
 def run_case(case):
+    if case.get('family') == 'threads':
+        from workloads.proxy_threads import FuzzRun as ThreadRun
+        run = ThreadRun(case)
+        violations, inconclusive = run.execute()
+        c = {'threads_' + k: v for k, v in run.counters.items()}
+        if inconclusive:
+            c['threads_runs_not_judged'] = 1
+        return {'violations': violations, 'counters': c,
+                'signature': ('t|%d' % (case['seed'] % 7)) if run.counters.get('histories_checked') else None,
+                'sample': None}
     if case.get('family') == 'history':
         from monitors.lib_c13 import IsolationMonitor
         from workloads.membership import Run
